@@ -626,7 +626,12 @@ def pattern_consti32(context, tree):
 
 
 @rvcisa.pattern(
-    "reg", "CONSTI32", size=3, condition=lambda t: t.value < 0x20000
+    "reg",
+    "CONSTI32",
+    size=3,
+    # c.lui takes a non-zero 6 bit signed upper part:
+    condition=lambda t: ((t.value + 0x800) >> 12) in range(-32, 32)
+    and ((t.value + 0x800) >> 12) != 0,
 )
 def pattern_consti32_2(context, tree):
     d = context.new_reg(RiscvRegister)
